@@ -1,71 +1,8 @@
-(* Qty/CmpProofs.v — exact-level symmetry of comparisons (C11). *)
+(* Qty/CmpProofs.v — the exact number instance satisfies the antisymmetry law of
+   partial_cmp used by the order-independence theorems of Qty/Struct.v (C11). *)
 From Coq Require Import List ZArith QArith Qcanon Bool.
 From NV Require Import Qty.Model Qty.Exec Qty.NumFacts Qty.Proofs Qty.Struct.
-Import ListNotations.
 Local Open Scope Qc_scope.
 
-Section Cmp.
-  Variable tbl : table Qc.
-  Variable res : resolved (T := Qc).
-  Variable keys : list skey.
-  Hypothesis scale_pos : forall i, 0 < scale res i.
-
-  Lemma pcmp_sym a b c c' :
-    unit_int (q_unit a) = true -> unit_int (q_unit b) = true ->
-    pcmp QcN tbl res keys a b = OOk c -> pcmp QcN tbl res keys b a = OOk c' -> c' = CompOpp c.
-  Proof.
-    intros Ha Hb H1 H2.
-    rewrite (pcmp_exact tbl res keys scale_pos a b Ha Hb c H1).
-    rewrite (pcmp_exact tbl res keys scale_pos b a Hb Ha c' H2).
-    apply Qc_cmp_antisym.
-  Qed.
-
-  Lemma pcmp_cases a b :
-    pcmp QcN tbl res keys a b = OIncompatible \/ exists c, pcmp QcN tbl res keys a b = OOk c.
-  Proof.
-    unfold pcmp. simpl. destruct (convert_to QcN tbl res keys b (q_unit a)); [right|left; reflexivity].
-    eexists. reflexivity.
-  Qed.
-
-  Definition flip (op : cmpop) : cmpop :=
-    match op with CLt => CGt | CGt => CLt | CLe => CGe | CGe => CLe end.
-
-  (* a < b equals b > a, a <= b equals b >= a (whenever both are defined) *)
-  Lemma vm_cmp_flip op a b x y :
-    unit_int (q_unit a) = true -> unit_int (q_unit b) = true ->
-    vm_cmp QcN tbl res keys op a b = Ok x -> vm_cmp QcN tbl res keys (flip op) b a = Ok y -> x = y.
-  Proof.
-    intros Ha Hb. unfold vm_cmp.
-    destruct (pcmp_cases a b) as [E1|[c E1]]; rewrite E1; [discriminate|].
-    destruct (pcmp_cases b a) as [E2|[c' E2]]; rewrite E2; [discriminate|].
-    rewrite (pcmp_sym a b c c' Ha Hb E1 E2).
-    destruct c, op; simpl; intros H1 H2; injection H1 as <-; injection H2 as <-; reflexivity.
-  Qed.
-
-  (* a == b equals b == a when each operand converts into the other's unit *)
-  Lemma qeq_sym a b a' b' :
-    unit_int (q_unit a) = true -> unit_int (q_unit b) = true ->
-    convert_to QcN tbl res keys b (q_unit a) = Ok b' ->
-    convert_to QcN tbl res keys a (q_unit b) = Ok a' ->
-    qeq QcN tbl res keys a b = qeq QcN tbl res keys b a.
-  Proof.
-    intros Ha Hb C1 C2.
-    rewrite (qeq_exact tbl res keys scale_pos a b b' Ha Hb C1).
-    rewrite (qeq_exact tbl res keys scale_pos b a a' Hb Ha C2).
-    rewrite (Qc_cmp_antisym (DenQ res a) (DenQ res b)).
-    destruct (Qc_cmp (DenQ res a) (DenQ res b)); reflexivity.
-  Qed.
-
-  (* exactly one of <, ==, > *)
-  Lemma trichotomy_exact a b c :
-    pcmp QcN tbl res keys a b = OOk c ->
-    vm_cmp QcN tbl res keys CLt a b = Ok (is_lt c)
-    /\ qeq QcN tbl res keys a b = is_eq c
-    /\ vm_cmp QcN tbl res keys CGt a b = Ok (is_gt c).
-  Proof.
-    intros H.
-    assert (Heq : forall x y : Qc, n_eqb QcN x y = match n_cmp QcN x y with Some Eq => true | _ => false end)
-      by (intros x y; simpl; apply Qc_eqb_cmp).
-    destruct (trichotomy_struct QcN tbl res keys a b c Heq H) as (A & B & C & _). auto.
-  Qed.
-End Cmp.
+Lemma QcN_cmp_antisym : cmp_antisym_law QcN.
+Proof. intros x y. simpl. unfold opp_o. simpl. f_equal. apply Qc_cmp_antisym. Qed.
